@@ -345,6 +345,9 @@ func (c *C) Mail(ctx context.Context, from string, opts smtp.MailOptions) error 
 		return c.wrapClientErr(err, c.serverName)
 	}
 
+	// New transaction, the connection may be reused.
+	c.rcpts = nil
+
 	return nil
 }
 
